@@ -34,9 +34,11 @@ type Profile struct {
 	PBurn     float64 `json:"p_burn"`
 	PPegReq   float64 `json:"p_pegreq"` // conversions into PEG
 	PRCDE     float64 `json:"p_rcde"`
-	SPR       bool    `json:"spr"`
-	PSPRBad   float64 `json:"p_spr_bad"`
-	Ties      bool    `json:"ties"`
+	// PBurnMiner: probability per graded block that one record pays to the all-zero address.
+	PBurnMiner float64 `json:"p_burn_miner,omitempty"`
+	SPR        bool    `json:"spr"`
+	PSPRBad    float64 `json:"p_spr_bad"`
+	Ties       bool    `json:"ties"`
 	// NoWedge keeps out constructs known to wedge or crash the daemon
 	// (known findings), so that other properties' checks are not blocked.
 	NoWedge bool `json:"no_wedge"`
@@ -77,7 +79,7 @@ func DefaultProfile(rng *rand.Rand) Profile {
 		AvgPeriod: []uint64{6, 12, 288}[rng.Intn(3)], RetryMS: []int{0, 5000}[rng.Intn(2)],
 		POutage: []float64{0, 0.05, 0.15}[rng.Intn(3)], OutageMax: 1 + rng.Intn(8), Jitter: []int{0, 10, 60}[rng.Intn(3)],
 		PriceStep: []int{0, 20, 150}[rng.Intn(3)], PBadOPR: 0.2, Users: 4 + rng.Intn(8), TxMean: 1 + 3*rng.Float64(),
-		PConv: 0.35, PMulti: 0.25, POver: 0.15, PDup: 0, PMut: 0, PRaw: 0, PBurn: 0.3, PPegReq: 0.2, PRCDE: 0.15,
+		PConv: 0.35, PMulti: 0.25, POver: 0.15, PDup: 0, PMut: 0, PRaw: 0, PBurn: 0.3, PPegReq: 0.2, PRCDE: 0.15, PBurnMiner: 0.08,
 		SPR: true, PSPRBad: 0.2, Ties: rng.Intn(3) == 0, NoWedge: true,
 	}
 	for i := 0; i < 16; i++ {
@@ -234,6 +236,9 @@ func (g *Gen) Step(extra func(h uint32, bs *BlockSpec)) (*Block, error) {
 		o := &OPRSpec{N: era.Winners + g.R.Intn(6), Seed: uint32(g.R.Int31()), Jitter: g.P.Jitter, Miners: 5, MinerBase: minerBase}
 		if inOutage {
 			o.N = g.R.Intn(era.Winners) // too few
+		}
+		if g.P.PBurnMiner > 0 && g.R.Float64() < g.P.PBurnMiner {
+			o.BurnPayout = 1
 		}
 		if g.R.Float64() < g.P.PBadOPR {
 			kinds := []string{"ver", "height", "prev", "addr", "diff", "dup", "zero", "ext2", "garbage"}
